@@ -765,6 +765,8 @@ func runParse(c *ctx, prop string) error {
 		}
 		var tree any
 		var terr error
+		// (a document that takes the process down — fatal stack overflow — is still reported as the failing input)
+		core.Current(map[string]any{"property": c.res.Property, "what": "pipeline.Parse on this document", "input": map[string]any{"document": string(src), "style": style}})
 		if pn, msg := guard(func() { tree, terr = decodeTree(src) }); pn {
 			// the first stage of Parse (ordered.DecodeYAML) is called directly here; a panic in it is a panic of Parse
 			terr = fmt.Errorf("DecodeYAML panicked: %s", msg)
@@ -857,6 +859,36 @@ func runParse(c *ctx, prop string) error {
 					}
 				}
 			}
+		}
+		// ...and so is an unrecognised mapping entry, at every depth: the unknown step holds the entry as it was written
+		// (every key, the nested steps of a would-be group included), compared with an independent decode of the source
+		if terr == nil {
+			var walk func(entries []any, steps pipeline.Steps, path string)
+			walk = func(entries []any, steps pipeline.Steps, path string) {
+				if len(entries) != len(steps) {
+					return
+				}
+				for si, e := range entries {
+					em, isMap := e.(vl.OMap)
+					if !isMap {
+						continue
+					}
+					switch st := steps[si].(type) {
+					case *pipeline.UnknownStep:
+						c.res.OracleChecks++
+						if got, want := vl.Enc(dump.Any(st.Contents)), vl.Enc(e); got != want {
+							c.res.Fail(core.OracleFailure{What: fmt.Sprintf("unknown step %s%d is not the input entry verbatim", path, si+1), Input: desc, Got: firstDiff(got, want)})
+						}
+					case *pipeline.GroupStep:
+						if sv, ok := findKV(em, "steps"); ok {
+							if l, ok := sv.([]any); ok {
+								walk(l, st.Steps, fmt.Sprintf("%s%d/", path, si+1))
+							}
+						}
+					}
+				}
+			}
+			walk(inputStepList(treeV), p.Steps, "")
 		}
 		var jb, yb []byte
 		var jerr, yerr error
@@ -1056,6 +1088,13 @@ func runParse(c *ctx, prop string) error {
 			}
 			if got := comparablePipeline(p2, leg == "json"); got != want {
 				c.res.Fail(core.OracleFailure{What: "re-parsing the " + leg + " marshalling gives a different pipeline", Input: desc, Got: firstDiff(got, want), Known: known})
+			} else if leg == "json" {
+				// the fixpoint at the byte level: what was just read back is written out as the very text it was read from
+				// (nil and empty containers included, which the typed comparison above identifies)
+				c.res.OracleChecks++
+				if jb3, err := json.Marshal(p2); err != nil || !bytes.Equal(jb3, jb) {
+					c.res.Fail(core.OracleFailure{What: "the JSON form is not a fixpoint: marshalling the re-parsed pipeline gives other bytes", Input: desc, Got: firstDiff(string(jb3), string(jb)), Known: known})
+				}
 			}
 		}
 		marshalReps := 2
@@ -1760,9 +1799,7 @@ func c13ByteLevel(c *ctx, rng *core.Rand, shards []*core.Session) {
 			pn  string
 		}
 		ch := make(chan res, 1)
-		if hostile {
-			core.Current(map[string]any{"property": "C13", "what": "pipeline.Parse on this document", "input": map[string]any{"document": string(b)}})
-		}
+		core.Current(map[string]any{"property": "C13", "what": "pipeline.Parse on this document", "input": map[string]any{"document": string(b)}})
 		go func() {
 			var r res
 			func() {
